@@ -580,6 +580,23 @@ def rule_parsers(run, prog):
                 why = (f"for the unmatchable character {ch!r} the call sequence is {_show_trace(sim.trace)}, result {out!r}, "
                        f"{sim.pos} character(s) skipped, diagnostics {sim.error_names()} (expected every sub-parser in order, then "
                        f"one BAD_LEXEME, one character skipped)")
+        # (c) the sub-parsers are never consulted at a position where a line splice starts, also right after a bad lexeme
+        #     was skipped (the splice skipping must be repeated before every consultation, not once per call)
+        for src in ("@\\\nx", "@??/\nx", "@@\\\nx", "\\\n@\\\n\\\nx", "@\\\n??/\nx", "x"):
+            sim = LexerSim(prog, src)
+            seen_at = []
+
+            def probe(me=None, sim=sim, seen_at=seen_at, src=src):
+                seen_at.append(sim.pos)
+                return TokenStub("T", (sim.line, sim.line_pos), None) if src[sim.pos:sim.pos + 1] == "x" else None
+            sim.me.__dict__["parsers"] = (probe,)
+            out = sim.call("get_next_token")
+            runs += 1
+            at_splice = [p_ for p_ in seen_at if src.startswith("\\\n", p_) or src.startswith("??/\n", p_)]
+            if why is None and (at_splice or out.kind != "ok" or not seen_at or seen_at[-1] != src.index("x")):
+                why = (f"on {src!r} the sub-parsers are consulted at offsets {seen_at} (result {out!r}): offset(s) {at_splice} start a "
+                       f"line splice, which must be skipped before the parsers look -- a splice right after a skipped bad lexeme is "
+                       f"then tokenized as a backslash / `?` `?` `/` and a NEWLINE")
     except Unsupported as e:
         raise Undecided(f"Lexer.get_next_token is outside the evaluable subset: {e}")
     loops = [x for x in walk_fn(gnt.node) if isinstance(x, ast.For) and "parsers" in text(x.iter)]
